@@ -270,6 +270,10 @@ var archivePrepop func(sb *sandbox)
 // of their own (0755).
 var archivePreserve bool
 
+// archiveNoOverwrite: the store runs with DisableOverwrite (names that are taken are refused;
+// names outside the working directory are refused all the same).
+var archiveNoOverwrite bool
+
 func runArchive(sb *sandbox, ents []tarEnt, named string) string {
 	ctx := context.Background()
 	oldwd, _ := os.Getwd()
@@ -285,6 +289,7 @@ func runArchive(sb *sandbox, ents []tarEnt, named string) string {
 		panic(err)
 	}
 	st.PreservePermissions = archivePreserve
+	st.DisableOverwrite = archiveNoOverwrite
 	res := "ok"
 	if len(ents) > 0 {
 		gz := buildTarGz(ents)
@@ -530,6 +535,17 @@ func runC11(seed int64, tier string, sc *Script) map[string]any {
 		"../wd-backup/victim", "../wd-backup/new", "sub/../../wd-backup/victim", "ABS:p1/p2/wd-backup/victim", "../wdx", "..data", "..a/b"} {
 		runOne("named", nil, n)
 	}
+	// the same hostile titles with DisableOverwrite: the option adds a refusal, it removes none
+	archiveNoOverwrite = true
+	for _, n := range []string{"a", "../x", "a/../../newdir/x", "ABS:outside/newfile", "../wd-backup/new", "ABS:p1/p2/wd-backup/new2", "../../p2/new3", "sub/../../wd-backup/new4"} {
+		runOne("named-nooverwrite", nil, n)
+	}
+	runOne("archive-nooverwrite", []tarEnt{{'r', "d/a", ""}, {'r', "d/../../escaped", ""}}, "")
+	runOne("archive-nooverwrite-title", nil, "")
+	archiveTitle = "../outdir"
+	runOne("archive-nooverwrite-title", []tarEnt{{'r', "../outdir/x", ""}}, "")
+	archiveTitle = "d"
+	archiveNoOverwrite = false
 	// titles that reach the disk through duplicate restoration: content stored under a good
 	// name, then a manifest listing the same bytes under another title
 	for _, n := range []string{"sub/inside.txt", "../escape.txt", "sub/../../../outside/victim", "ABS:outside/victim", "../../victim",
